@@ -610,21 +610,25 @@ Section ConfirmProofs.
 
   (* -------- the transaction level -------- *)
 
-  Theorem direct_signer_is_bridger : forall st m k,
-    handle recover st (tx_inner (TxDirect m)) = Accepted k ->
-    exists orc, assoc Z.eqb (snd k) (st_oracles st) = Some orc /\ tx_signer (TxDirect m) = o_bridger orc.
+  (* whoever signs: if a wrapped confirm either never reaches the handler (no UnpackInterfaces) or is compared
+     with its wrapper (ValidateBasic), an accepted confirm was signed for by the oracle's bridger *)
+  Theorem tx_signer_is_bridger : forall unpacks checks st s t k,
+    (unpacks = false \/ checks = true) ->
+    tx_deliver recover unpacks checks st s t = Accepted k ->
+    exists orc, assoc Z.eqb (snd k) (st_oracles st) = Some orc /\ s = o_bridger orc.
   Proof.
-    intros st m k H. apply handle_accept_iff in H.
-    destruct H as (o & pre & sig & orc & _ & _ & _ & _ & ER & _ & EB & _). exists orc. split; auto.
-  Qed.
-
-  Theorem wrapped_signer_guarded : forall st w m k,
-    w = m_bridger m ->
-    handle recover st (tx_inner (TxWrapped w m)) = Accepted k ->
-    exists orc, assoc Z.eqb (snd k) (st_oracles st) = Some orc /\ tx_signer (TxWrapped w m) = o_bridger orc.
-  Proof.
-    intros st w m k -> H. apply handle_accept_iff in H.
-    destruct H as (o & pre & sig & orc & _ & _ & _ & _ & ER & _ & EB & _). exists orc. split; auto.
+    intros unpacks checks st s t k G H. unfold tx_deliver in H.
+    destruct (s =? tx_signer t) eqn:ES; cbn [negb] in H; [|discriminate]. apply Z.eqb_eq in ES.
+    assert (A : forall m, handle recover st m = Accepted k -> s = m_bridger m ->
+                exists orc, assoc Z.eqb (snd k) (st_oracles st) = Some orc /\ s = o_bridger orc).
+    { intros m Hm E. apply handle_accept_iff in Hm.
+      destruct Hm as (o & pre & sig & orc & _ & _ & _ & _ & ER & _ & EB & _). exists orc. split; auto. congruence. }
+    destruct t as [m|w m]; cbn [tx_signer] in ES.
+    - apply (A m); auto.
+    - destruct unpacks; cbn [negb] in H; [|discriminate].
+      destruct G as [G|G]; [discriminate|]. subst checks. cbn [andb] in H.
+      destruct (w =? m_bridger m) eqn:EW; cbn [negb] in H; [|discriminate]. apply Z.eqb_eq in EW.
+      apply (A m); auto. congruence.
   Qed.
 End ConfirmProofs.
 
@@ -640,14 +644,27 @@ Definition ex_state : cstate :=
 Definition rec_ok (tron : bool) (pre sig : list Z) : option Z := Some 31.
 Definition rec_other (tron : bool) (pre sig : list Z) : option Z := Some 32.
 
-(* MsgConfirm{bridger_address: w, confirm: m}: accepted although the transaction signer w is
-   not the oracle's bridger *)
-Theorem wrapped_signer_refuted :
-  exists recover st w m k orc,
-    handle recover st (tx_inner (TxWrapped w m)) = Accepted k /\
-    assoc Z.eqb (snd k) (st_oracles st) = Some orc /\ tx_signer (TxWrapped w m) <> o_bridger orc.
+(* this tree: a MsgConfirm decoded from bytes never carries its wrapped message, or it is compared *)
+Theorem tree_wrapper_safe : negb msgconfirm_unpacks || msgconfirm_vb_compares_bridger = true.
+Proof. reflexivity. Qed.
+
+Theorem tx_signer_is_bridger_on_tree : forall recover st s t k,
+  tx_deliver recover msgconfirm_unpacks msgconfirm_vb_compares_bridger st s t = Accepted k ->
+  exists orc, assoc Z.eqb (snd k) (st_oracles st) = Some orc /\ s = o_bridger orc.
 Proof.
-  exists rec_ok, ex_state, 99, ex_msg, ((KOracleSet, 0, 3), 11), {| o_bridger := 21; o_external := 31 |}.
+  intros recover st s t k. apply tx_signer_is_bridger.
+  pose proof tree_wrapper_safe as T. destruct msgconfirm_unpacks; [right|left; reflexivity]. exact T.
+Qed.
+
+(* LATENT (not reachable through a transaction on this tree): were the wrapped message made available to the
+   handler (UnpackInterfaces) without the comparison, MsgConfirm{bridger_address: w, confirm: m} would be
+   accepted although the signer w is not the oracle's bridger *)
+Theorem wrapped_signer_latent :
+  exists recover st s t k orc,
+    tx_deliver recover true false st s t = Accepted k /\
+    assoc Z.eqb (snd k) (st_oracles st) = Some orc /\ s <> o_bridger orc.
+Proof.
+  exists rec_ok, ex_state, 99, (TxWrapped 99 ex_msg), ((KOracleSet, 0, 3), 11), {| o_bridger := 21; o_external := 31 |}.
   split; [vm_compute; reflexivity|]. split; [reflexivity|]. cbn. lia.
 Qed.
 
